@@ -47,6 +47,11 @@ def run(ctx):
                    "sub-sinks' ready (push iff accepted)", min_sites=6)
     ctx.rule("S8", "accepted <=> loaded: under sink.valid the sink.ready formula and the load enable coincide",
              min_sites=5)
+    ctx.rule("S11", "occupancy registers stay inside their declared range: every +d/-d update of a Signal(max=M) register is "
+                    "guarded by thresholds that keep it in 0..M-1 (linear forms over the positive constructor parameters)", min_sites=7)
+    ctx.rule("S10", "selection-based routing and compositions: mux/demux arm i connects endpoint i under sel == i; Gate connects "
+                    "only when enabled; SyncFIFO depth 0/1/>=2 arms; Pipeline chains consecutive modules; Buffer order sink, "
+                    "pipe_valid, pipe_ready, source; Cast maps all bits; BufferizeEndpoints directions", min_sites=20)
 
     # ---- S2
     for cls in S2_CLASSES:
@@ -202,6 +207,140 @@ def run(ctx):
 
     # ---- S6 fork atomicity
     s6_fork(ctx, "S6", fxp, "PacketFIFO", "self.sink", ["self.param_fifo.sink", "self.payload_fifo.sink"])
+
+    # ---- S10
+    _s10(ctx)
+
+    # ---- S11 occupancy range
+    from ..rules_stream import s_range
+    s_range(ctx, "S11", fx_of(ctx, STREAM, "Gearbox"), "Gearbox", "level")
+
+
+def _s10(ctx):
+    from ..fx import FX
+    m = ctx.mod(STREAM)
+    # ---- Multiplexer / Demultiplexer
+    for cls, many, one, fwd in (("Multiplexer", "sinks", "self.source", True), ("Demultiplexer", "sources", "self.sink", False)):
+        fx = fx_of(ctx, STREAM, cls)
+        fail_closed(ctx, fx, cls)
+        cs = [c for c in fx.conns if c["guards"]]
+        ctx.ob("S10", STREAM, cls, "selected connect:present", len(cs) == 1, f"{len(cs)} guarded connects", 0)
+        for c in cs:
+            src, dst = norm(c["conn"].src), norm(c["conn"].dst)
+            arr, single = (src, dst) if fwd else (dst, src)
+            idx = arr[len(many) + 1:-1] if arr.startswith(many + "[") else None
+            G = B.guard_formula(c["guards"])
+            ok = idx is not None and single == one and B.equivalent(G, B.A(f"self.sel == {idx}")) and c["conn"].omit is None and \
+                c["conn"].keep is None
+            ctx.ob("S10", STREAM, cls, f"arm i: {many}[i] <-> {one} under sel == i", ok,
+                   "" if ok else f"{src}.connect({dst}) under {B.show(G)}: tokens of another endpoint are routed / fields dropped", c["node"])
+        init = m.method(cls, "__init__")
+        ok = any(isinstance(n, ast.For) and norm(n.iter) == "range(n)" for n in ast.walk(init)) and \
+            any(isinstance(n, ast.Call) and norm(n.func) == "setattr" and len(n.args) == 3 and norm(n.args[0]) == "self" for n in ast.walk(init))
+        ctx.ob("S10", STREAM, cls, "one endpoint per index 0..n-1 registered on the module", ok, "" if ok else "endpoint creation changed", init)
+    # ---- Gate
+    fx = fx_of(ctx, STREAM, "Gate")
+    fail_closed(ctx, fx, "Gate")
+    cs = [c for c in fx.conns]
+    ok = len(cs) == 1 and norm(cs[0]["conn"].src) == "self.sink" and norm(cs[0]["conn"].dst) == "self.source" and \
+        B.equivalent(B.guard_formula(cs[0]["guards"]), B.A("self.enable")) and cs[0]["conn"].omit is None
+    ctx.ob("S10", STREAM, "Gate", "sink connected to source exactly when enabled", ok, "" if ok else f"{[(norm(c['conn'].src), norm(c['conn'].dst), c['guards']) for c in cs]}")
+    rd = fx.find(domain="comb", target="self.sink.ready")
+    ok = len(rd) == 1 and B.equivalent(B.guard_formula(rd[0].guards), B.Not(B.A("self.enable"))) and rd[0].v == "int(sink_ready_when_disabled)"
+    ctx.ob("S10", STREAM, "Gate", "disabled: sink.ready = the configured constant, nothing forwarded", ok, "" if ok else f"{[(a.v, a.gtext()) for a in rd]}")
+    # ---- SyncFIFO arms
+    fx = fx_of(ctx, STREAM, "SyncFIFO")
+    d0 = [c for c in fx.conns if ("depth == 0", True) in c["pyguards"]]
+    ok = len(d0) == 1 and norm(d0[0]["conn"].src) == "self.sink" and norm(d0[0]["conn"].dst) == "self.source" and d0[0]["conn"].omit is None
+    ctx.ob("S10", STREAM, "SyncFIFO", "depth 0: plain connect", ok, "" if ok else "depth-0 arm changed")
+    b1 = [i for i in fx.insts if i.cls == "Buffer" and ("depth == 1", True) in i.pyguards]
+    ok = len(b1) == 1
+    init = m.method("SyncFIFO", "__init__")
+    al = {norm(n.targets[0]): norm(n.value) for n in ast.walk(init) if isinstance(n, ast.Assign) and norm(n.targets[0]) in ("self.sink", "self.source") and
+          norm(n.value).startswith("buf.")}
+    ok = ok and al == {"self.sink": "buf.sink", "self.source": "buf.source"}
+    ctx.ob("S10", STREAM, "SyncFIFO", "depth 1: a Buffer whose sink/source are exposed", ok, "" if ok else f"{al}")
+    f2 = [i for i in fx.insts if i.name == "self.fifo" and ("depth >= 2", True) in i.pyguards]
+    ok = len(f2) == 1
+    ctx.ob("S10", STREAM, "SyncFIFO", "depth >= 2: Migen FIFO behind the wrapper", ok, "" if ok else "deep arm changed")
+    # ---- Pipeline
+    fx = FX(ctx, STREAM, cls="Pipeline", entries=("do_finalize",))
+    fin = m.method("Pipeline", "do_finalize")
+    loops = [n for n in ast.walk(fin) if isinstance(n, ast.For)]
+    ok = len(loops) == 1 and isinstance(loops[0].target, ast.Name) and norm(loops[0].iter) in ("range(1, n)", "range(1, len(self.modules))")
+    detail = "the loop over the modules changed"
+    if ok:
+        lp = loops[0]
+        iv = lp.target.id
+        asg = lambda body: {x.targets[0].id: norm(x.value) for x in body if isinstance(x, ast.Assign) and isinstance(x.targets[0], ast.Name)}
+        pre, inb = asg(fin.body), asg(lp.body)
+        X = [k for k, v in pre.items() if v == "self.modules[0]"]
+        Y = [k for k, v in inb.items() if v == f"self.modules[{iv}]"]
+        ok = len(X) == 1 and len(Y) == 1
+        detail = f"no variable holds modules[0] before the loop / modules[{iv}] inside it"
+        if ok:
+            X, Y = X[0], Y[0]
+            writesX = [x for x in ast.walk(lp) if isinstance(x, (ast.Assign, ast.AugAssign)) and
+                       any(isinstance(t, ast.Name) and t.id == X for t in (x.targets if isinstance(x, ast.Assign) else [x.target]))]
+            last = lp.body[-1]
+            ok = len(writesX) == 1 and writesX[0] is last and isinstance(last, ast.Assign) and norm(last.value) == Y
+            detail = f"`{X}` (the previous stage) is not advanced to `{Y}` (this stage) as the last step of each iteration: a stage is skipped or connected twice"
+            if ok:
+                # first-iteration view from FX: modules[0] -> modules[i], unless they are the same object
+                c = fx.conns[0]["conn"] if len(fx.conns) == 1 else None
+                ok = c is not None and norm(c.src) == "self.modules[0] if isinstance(self.modules[0], Endpoint) else self.modules[0].source" and \
+                    norm(c.dst) == f"self.modules[{iv}] if isinstance(self.modules[{iv}], Endpoint) else self.modules[{iv}].sink" and \
+                    not fx.conns[0]["guards"] and fx.conns[0]["pyguards"] == [(f"self.modules[0] is self.modules[{iv}]", False)]
+                detail = "previous stage's source (or the Endpoint itself) is not connected to this stage's sink (or the Endpoint itself)"
+    ctx.ob("S10", STREAM, "Pipeline.do_finalize", "module i-1's source connected to module i's sink, for i = 1..n-1", ok,
+           "" if ok else detail, fin)
+    exp = {}
+    for x in ast.walk(fin):
+        if isinstance(x, ast.If) and norm(x.test).startswith("hasattr("):
+            for y in x.body:
+                if isinstance(y, ast.Assign):
+                    exp[norm(y.targets[0])] = (norm(x.test), norm(y.value), x.lineno < loops[0].lineno if loops else None)
+    ok = bool(loops) and ok and exp.get("self.sink") == (f"hasattr({X}, 'sink')", f"{X}.sink", True) and \
+        exp.get("self.source") == (f"hasattr({X}, 'source')", f"{X}.source", False)
+    ctx.ob("S10", STREAM, "Pipeline.do_finalize", "pipeline sink = first module's sink, source = last module's source", ok,
+           "" if ok else f"{exp}", fin)
+    ok = len(fx.conns) == 1 and fx.conns[0]["conn"].omit is None and fx.conns[0]["conn"].keep is None
+    ctx.ob("S10", STREAM, "Pipeline.do_finalize", "full connect between stages (nothing omitted)", ok, "" if ok else "stage connect restricted")
+    # ---- Buffer
+    fx = fx_of(ctx, STREAM, "Buffer")
+    pl = [i for i in fx.insts if i.name == "self.pipeline" and i.call is not None]
+    ok = len(pl) == 1
+    if ok:
+        args = [norm(a) for a in pl[0].call.args]
+        ok = args[0] == "self.sink" and args[-1] == "self.source" and len(args) == 3 and "self.pipe_valid" in args[1] and \
+            "self.pipe_ready" in args[1] and args[1].index("self.pipe_valid") < args[1].index("self.pipe_ready")
+    ctx.ob("S10", STREAM, "Buffer", "Pipeline(sink, [pipe_valid], [pipe_ready], source)", ok, "" if ok else f"{pl}")
+    # ---- Delay
+    fx = fx_of(ctx, STREAM, "Delay")
+    pl = [i for i in fx.insts if i.cls == "Pipeline" and i.call is not None]
+    ok = len(pl) == 1
+    if ok:
+        args = [norm(fx.expand(a)) for a in pl[0].call.args]
+        ok = len(args) == 3 and args[0] == "self.sink" and args[2] == "self.source" and args[1].startswith("*") and "Buffer(" in args[1] and \
+            "range(n)" in args[1]
+    ctx.ob("S10", STREAM, "Delay", "Pipeline(sink, *n buffers, source)", ok, "" if ok else f"{[norm(a) for a in pl[0].call.args] if pl else pl}")
+    # ---- Cast
+    fx = fx_of(ctx, STREAM, "Cast")
+    ca = [a for a in fx.find(domain="comb") if a.t.startswith("Cat(")]
+    ok = len(ca) == 1 and "self.source.payload.flatten()" in ca[0].t and "self.sink.payload.flatten()" in ca[0].v and ca[0].v.startswith("Cat(")
+    ctx.ob("S10", STREAM, "Cast", "all source payload bits <- all sink payload bits", ok, "" if ok else f"{[(a.t[:40], a.v[:40]) for a in ca]}")
+    init = m.method("Cast", "__init__")
+    ok = any(isinstance(n, ast.If) and "sum(" in norm(n.test) and "!=" in norm(n.test) and any(isinstance(x, ast.Raise) for x in n.body) for n in ast.walk(init))
+    ctx.ob("S10", STREAM, "Cast", "width mismatch raises", ok, "" if ok else "the bit-count check vanished", init)
+    # ---- BufferizeEndpoints
+    fx = FX(ctx, STREAM, cls="BufferizeEndpoints", entries=("transform_instance",))
+    cs = {tuple(sorted(p for c, p in c_["pyguards"] if "DIR_SINK" in c)): (norm(c_["conn"].src), norm(c_["conn"].dst)) for c_ in fx.conns}
+    ok = cs.get((True,)) == ("buf.source", "getattr(submodule, name)") and cs.get((False,)) == ("getattr(submodule, name)", "buf.sink")
+    ctx.ob("S10", STREAM, "BufferizeEndpoints", "sink endpoints fed from buf.source, source endpoints feed buf.sink", ok, "" if ok else f"{cs}")
+    ti = m.method("BufferizeEndpoints", "transform_instance")
+    sa = [norm(n) for n in ast.walk(ti) if isinstance(n, ast.Call) and norm(n.func) == "setattr"]
+    ok = sa == ["setattr(submodule, name, buf.sink)", "setattr(submodule, name, buf.source)"]
+    ctx.ob("S10", STREAM, "BufferizeEndpoints", "the buffered endpoint replaces the original one", ok, "" if ok else f"{sa}")
 
 
 def run_thorough(ctx):
